@@ -160,7 +160,11 @@ theorem selectEntry_mem {idx : List (Nat × Nat)} {d m : Nat} (h : selectEntry i
     rw [h1] at h
     cases h2 : lookUp idx 1001 0 with
     | some t => rw [h2] at h; cases h; exact lookUp_mem h2
-    | none => rw [h2] at h; cases h
+    | none =>
+      rw [h2] at h
+      cases h3 : idxGet idx 1001 with
+      | some t => rw [h3] at h; cases h; exact idxGet_mem h3
+      | none => rw [h3] at h; cases h
 
 /-- every entry of the index of a reference is an ancestor-or-self of the taxon of that reference -/
 theorem indexSequence_anc {taxids : List Nat} {b lseq : Nat} {c : Nat → Cand} {ow : List Nat}
